@@ -6,6 +6,7 @@ mod jsoncaps;
 mod policy;
 mod pool;
 mod publish;
+mod wrapper;
 
 use anyhow::{anyhow, Result};
 
@@ -31,6 +32,10 @@ fn main() -> Result<()> {
         "gadget-replay" => gadgets::replay(&args[2], &args[3], &args[4]),
         "gadget-record" => gadgets::record(&args[2], args[3].parse()?, seed(), &args[4]),
         "gadget-selftest" => gadgets::selftest(),
+        "pb-replay" => wrapper::pb_replay(&args[2], &args[3], seed()),
+        "qb-replay" => wrapper::qb_replay(&args[2], &args[3], seed()),
+        "wrap-record" => wrapper::record(&args[2], args[3].parse()?, &args[4], seed(), args.get(5).map(|s| s == "big").unwrap_or(false)),
+        "wrap-selftest" => wrapper::selftest(),
         _ => Err(anyhow!("unknown subcommand {cmd}")),
     }
 }
